@@ -6,15 +6,21 @@ CFG = {
              "exactly once in order, all but the last of the nominal height, which is a positive multiple of the split "
              "height, len = ceil(h/F), exactly one fragment iff the image is empty/small, the format has no split height "
              "or global dithering applies; the indexed collect of encode_parallel gives the same vector for every "
-             "completion permutation; under the explicit assumption that an encoder is row-group local, fragment-wise "
-             "output = whole-image output (6 theorems, no size bound). Tie: SplitView geometry over a size grid around "
+             "completion permutation; fragment-wise output = whole-image output for every encoder that is row-group "
+             "local, and row-group locality is PROVED for a data-flow model of every encoder family with arbitrary "
+             "per-pixel / per-block functions (for_each_chunk contiguous and row-wise, process_subsample, "
+             "for_each_f32_rgba_rows + block_universal incl. bottom/right padding), the families that are not local "
+             "(Bayer row index, bi-planar, error diffusion) being never split; put together over the pinned tables "
+             "(73 formats x 12 colours x 4 options) in fragmentwise_eq_whole_all_families (16 theorems, no size bound). "
+             "Tie: SplitView geometry over a size grid around "
              "every fragment threshold for every format, and dds::encode parallel (pools of 1..16 threads, completion "
              "orders natural/reversed/random/free imposed through the dds_verif hook) vs sequential vs "
              "fragment-by-fragment, byte for byte, in release and overflow-checking builds.",
     "note": "Trusted: Lean kernel + propext/Classical.choice/Quot.sound; the hand-written model Split.lean; the "
-            "correspondence check and its generators; RowGroupLocal for each encoder family is an ASSUMPTION validated "
-            "only by the byte comparison of the tie; real data races in rayon/Mutex are outside the model and covered "
-            "only by the schedule sweep.",
+            "correspondence check and its generators; the data-flow model EncRows.lean: that each Rust encoder body is "
+            "an instance of its family (EncRows.Runs) and that every per-pixel / per-block closure is a pure function "
+            "of its arguments is ASSUMED (validated by the byte comparison of the tie and the pad cases); real data "
+            "races in rayon/Mutex are outside the model and covered only by the schedule sweep.",
     "profiles": ["release", "checked"],
     "level": "proof",
     "rule": "cases = support record of all 73 formats; SplitView geometry on a grid (widths 1..100 and around "
@@ -22,17 +28,27 @@ CFG = {
             "t/w and around 1..3 fragment heights; 4 qualities; dithering none/color/alpha/all) + PRNG sizes over all "
             "formats; encode cases over all 57 encodable formats (every family in each quarter of the list) x sizes "
             "(wider than a fragment, at the threshold, few and many fragments, tiny) x 12 color formats x dithering x "
-            "quality Fast/Normal(/High thorough) x error metric x 1..16 threads x 4 orders; non-trivial = a geometry or "
+            "quality Fast/Normal(/High thorough) x error metric x 1..16 threads x 4 orders; pad cases: every block / "
+            "sub-sampled format x widths 1..19 and around the 512-pixel chunk (sub-sampled) or 1..18 (BCn) x heights "
+            "1..11 vs the block-aligned image built with the model's padding rules; non-trivial = a geometry or "
             "an encode was produced (not a support-record or bad-case line); distinct = distinct case lines",
     "assumptions": [
         "the implementation equals the model off the generated cases",
-        "RowGroupLocal (each encoder's output is the concatenation of per-row-group outputs) — assumed in "
-        "fragmentwise_eq_whole, validated by byte equality of sequential vs fragment-wise encoding on every run",
+        "EncRows.Runs: the Rust body of every encoder is an instance of the data-flow family the model names for it "
+        "(loops transcribed by reading; padding rules tied by the pad cases, write sizes by C10, encoder lists and "
+        "pick_encoder by C19)",
+        "every per-pixel / per-block / per-row-group closure is a function of the arguments the model gives it and of "
+        "the options (no state between calls; output slot overwritten, not read); for for_each_chunk the closures "
+        "encode pixel by pixel; input colour conversion is per pixel; a full-width crop yields the corresponding rows "
+        "— validated by byte equality of sequential vs fragment-wise encoding on every run",
         "rayon's indexed collect preserves index order; the scheduler is an arbitrary permutation of job completions",
         "oracle in harness/src/c14.rs: tiling facts checked on the fragments' data pointers, byte equality of the "
         "three outputs of the implementation itself",
     ],
-    "trusted_base": ["model: lean/DdsModel/DdsModel/Split.lean (src/split.rs in full; EncodingSupport / "
+    "trusted_base": ["model: lean/DdsModel/DdsModel/EncRows.lean (data flow of for_each_chunk, process_subsample / "
+                     "uncompressed_universal_subsample, for_each_f32_rgba_rows + block_universal, bi_planar_universal, "
+                     "uncompressed_universal_dither; per-unit functions are parameters)",
+                     "model: lean/DdsModel/DdsModel/Split.lean (src/split.rs in full; EncodingSupport / "
                      "PreferredFragmentSize / Dithering::intersect of src/encode/mod.rs; EncoderSet::{new,new_bc,"
                      "new_bi_planar} and the fragment sizes of src/encode/bc.rs as a 73-row table; the indexed "
                      "collect of encode_parallel); not modelled: the encoders' bytes (compared, not predicted), "
@@ -43,7 +59,7 @@ CFG = {
 
 
 def nontrivial(c, r):
-    return c.startswith(("geo", "enc")) and r != "bad-case" and not r.startswith("panic")
+    return c.startswith(("geo", "enc", "pad")) and r != "bad-case" and not r.startswith("panic")
 
 
 def classify(c, r):
@@ -59,6 +75,13 @@ def classify(c, r):
         fam = "bc" if t[1].startswith("BC") else "other"
         th = int(t[8])
         return f"enc {fam} q={t[6]} threads={'1' if th == 1 else '2-4' if th <= 4 else '5-16'} order={t[9]} frags={_bucket(n)}"
+    if t[0] == "pad":
+        fam = "bc" if t[1].startswith("BC") else "r1" if t[1] == "R1_UNORM" else "2x1" if t[1] in (
+            "R8G8_B8G8_UNORM", "G8R8_G8B8_UNORM", "UYVY", "YUY2", "Y210", "Y216") else "plain"
+        w, h = int(t[2]), int(t[3])
+        bw, bh = {"bc": (4, 4), "r1": (8, 1), "2x1": (2, 1), "plain": (1, 1)}[fam]
+        which = ("w" if w % bw else "") + ("h" if h % bh else "")
+        return f"pad {fam} padded={which or 'none'}" + (" chunks=2+" if w > 512 else "")
     return t[0]
 
 
